@@ -1,4 +1,4 @@
-HOOK_COMMITS = ["358b29f", "6cd9f5c", "5546540", "d5e2d64"]
+HOOK_COMMITS = ["358b29f", "6cd9f5c", "5546540", "d5e2d64", "cc0f95b"]
 FIX_COMMITS = ["923416a", "a6cf66b", "1830814", "c137568", "96c0ea9"]
 
 NOTES = ("All checks are ./check <id> --tier quick|thorough (runner/vrunner.py). Every engine is rebuilt "
@@ -7,7 +7,7 @@ NOTES = ("All checks are ./check <id> --tier quick|thorough (runner/vrunner.py).
 
 ENGINES_DOC = [
     {"name": "sched", "path": "engines/sched", "serves_properties": ["C08", "C18"],
-     "kind_free_text": "Rust + loom 0.7.2; the real crate with hooks H1-H3 and the real C library (TBB seam on, kernel calls and feature-cache accesses redirected to harness scheduling points, blake3_tbb.cpp against a stand-in parallel_invoke); TSan driver for the free-running C pass"},
+     "kind_free_text": "Rust + loom 0.7.2; the real crate (a copy of /repo's source with core::sync/std::sync/thread_local! routed through engines/sched/vshim, regenerated on every build) with hooks H1-H3 and the real C library (TBB seam on, kernel calls and feature-cache accesses redirected to harness scheduling points, blake3_tbb.cpp against a stand-in parallel_invoke); TSan driver for the free-running C pass"},
     {"name": "kernels", "path": "engines/kernels", "serves_properties": ["C05", "C07"],
      "kind_free_text": "Rust + build.rs linking every native kernel flavour from /repo/c under distinct names (Unix asm, C intrinsics as cint_*, Windows-GNU asm as win_* after .rdata->.rodata), register-sentinel trampolines (GNU as), guard-page allocator, child-process isolation, clang ASan/UBSan driver"},
     {"name": "clib", "path": "engines/clib", "serves_properties": ["C06"],
@@ -67,13 +67,13 @@ CHECKS["C11"] = {
 CHECKS["C14"] = {
     "engine": "core/hash_value", "category": "exploration", "design_ref": "DESIGN.md 3/C14",
     "technique": "exhaustive enumeration of the decomposed value domain (every byte value at every position, every length, every single-bit pair)",
-    "text": "Every byte value at every one of the 32 positions (three backgrounds) through to_hex/Display/Debug/from_hex (&str, &[u8], String; lower and upper case)/FromStr/[u8;32]/slices; every byte value 0..255 at every one of the 64 positions of a valid hex string (accepted iff a hex digit, with the defined value); every input length 0..=130; from_slice on every length 0..=70; equality of Hash with Hash, [u8;32] and [u8] for all 256 single-bit differences and for slices of every length sharing the prefix; serde JSON and CBOR (sequence and legacy byte-string form) round trips. All under catch_unwind.",
+    "text": "Every byte value at every one of the 32 positions (three backgrounds) through to_hex/Display/Debug/from_hex (&str, &[u8], String; lower and upper case)/FromStr/[u8;32]/slices; every byte value 0..255 at every one of the 64 positions of a valid hex string (accepted iff a hex digit, with the defined value); every input length 0..=130; from_slice on every length 0..=70; FromStr/parse on every length and on a valid string decorated before/after/around with 26 whitespace, prefix and quote characters (must agree with from_hex: rejected); equality of Hash with Hash, [u8;32] and [u8] for all 256 single-bit differences, every two-byte difference (all position pairs x 16 mask pairs, +d/-d), three-byte differences with cancelling masks, swapped/complemented 2-16 byte words, and for slices of every length sharing the prefix; serde JSON and CBOR (sequence and legacy byte-string form) round trips. All under catch_unwind.",
     "note": "The 2^256 value space is decomposed per position. serde checked with serde_json and ciborium.",
 }
 CHECKS["C15"] = {
     "engine": "core/refimpl", "category": "exploration", "design_ref": "DESIGN.md 3/C15",
     "technique": "bounded-exhaustive enumeration of lengths, update histories and output lengths on the real reference_impl, and of every field of test_vectors.json, vs independent spec model",
-    "text": "reference_impl::Hasher in three modes: every single-update length 0..=17409 (quick) / 66561 (thorough) plus lattice, every history of up to 3 / 4 updates over the fine alphabet and 3 over the coarse one, every output length 0..=200 and 1024/1025/4099; every field of the live test_vectors.json (key, context, comment, the 35 lengths, 3 x 131 bytes each) against b3spec and directly against the optimized crate and the reference implementation.",
+    "text": "reference_impl::Hasher in three modes: every single-update length 0..=17409 (quick) / 66561 (thorough) plus lattice, every history of up to 3 / 4 updates over the fine alphabet and 3 over the coarse one, every output length 0..=200 and 1024/1025/4099; derive_key with a context string of every length 0..=3200 (quick) / 8300 (thorough) and keyed mode with every single-bit key; every field of the live test_vectors.json (key, context, comment, the 35 lengths, 3 x 131 bytes each) against b3spec and directly against the optimized crate and the reference implementation; the test_vectors crate itself (TEST_CASES, TEST_KEY, TEST_CONTEXT, OUTPUT_LEN, paint_test_input, and generate_json() byte-for-byte against the checked-in file and case by case against the spec).",
     "note": "Trusted: b3spec (anchored against a copy of the vectors kept in /verif and a second model).",
 }
 CHECKS["C16"] = {
@@ -98,7 +98,7 @@ CHECKS["C12"] = {
 CHECKS["C13"] = {
     "engine": "b3sum/checkfile_format", "category": "exploration", "design_ref": "DESIGN.md 3/C13",
     "technique": "bounded-exhaustive enumeration of paths and check lines through the real filepath_to_string / parse_check_line (included from main.rs) and the real binary, vs a reference printer/parser written from the documentation",
-    "text": "Every path of length 1..4 (quick) / 5 (thorough) over 13 symbols (space, backslash, LF, CR, parentheses, =, B, 0xFF, U+FFFD, a 2-byte character, NUL, a) plus seeds is printed by the real filepath_to_string in plain and --tag form with LF/CRLF/no terminator and parsed back by the real parse_check_line: the line must equal the documented format, the round trip must succeed exactly for representable paths, and no two paths may parse to the same path. Every single-character insert/replace/delete/duplicate (20 characters, every position) of 20 valid lines, multi-byte hash fields, and all strings up to length 3 / 4 over 12 characters are parsed: never a panic, Ok only with the result the documented format gives, b3sum's own output never rejected. The real binary then hashes ~190 / ~2200 real files with such names in both forms and --check is run on its output.",
+    "text": "Every path of length 1..4 (quick) / 5 (thorough) over 13 symbols (space, backslash, LF, CR, parentheses, =, B, 0xFF, U+FFFD, a 2-byte character, NUL, a) plus seeds, plus every separator-like token (double space, ' *', ') = ', backslash, LF, CR, backslash-n, 'BLAKE3 (', ...) at every offset 0..=72 of an otherwise plain name, is printed by the real filepath_to_string in plain and --tag form with LF/CRLF/no terminator and parsed back by the real parse_check_line: the line must equal the documented format, the round trip must succeed exactly for representable paths, and no two paths may parse to the same path. Every single-character insert/replace/delete/duplicate (26 characters incl. look-alikes whose code point ends in a hex digit, every position) of 20 valid lines, multi-byte hash fields, and all strings up to length 3 / 4 over 12 characters are parsed: never a panic, Ok only with the result the documented format gives, b3sum's own output never rejected. The real binary then hashes ~190 / ~2200 real files with such names in both forms and --check is run on its output.",
     "note": "Reference printer/parser (engines/b3sum/src/refmodel.rs) written from what_does_check_do.md and the property statement. Unix path semantics.",
 }
 
@@ -138,7 +138,7 @@ CHECKS["C08"] = {
 CHECKS["C18"] = {
     "engine": "sched (loom)", "category": "model_checking", "design_ref": "DESIGN.md 3/C18",
     "technique": "stateless model checking under a controlled scheduler (loom) of threads using disjoint instances, with scheduling points at kernel entries and at the C feature-cache load/store; plus deviation-bounded enumeration of Platform::detect() answers",
-    "text": "Two and three loom threads each run a complete operation sequence (incremental hashing, extended output with seeks across block counter 2^32, clones, one-shot calls, hazmat merges; C: init/init_keyed/init_derive_key_raw, update, finalize_seek) on their own instances; all interleavings of the scheduling points under preemption bound 2 (3 for pairs in the thorough tier) are executed and every thread's results must equal the results of the same sequence run alone (= the spec). On the C side every execution starts with g_cpu_features = UNDEFINED and the cache's load and store are scheduling points (hook H5), so detection itself races, and the final cache value is checked. On the Rust side the cpufeatures caches are over-approximated: every Platform::detect() call may answer any level up to the best one, all answer sequences with at most two deviations. Sampling, labelled so: 16 real threads released together as the first calls of fresh processes.",
+    "text": "Two and three loom threads each run a complete operation sequence (incremental hashing, update_reader / io::copy, extended output with seeks across block counter 2^32, clones, one-shot calls, repeated key derivation with per-thread context strings and keys, hazmat merges; C: init/init_keyed/init_derive_key_raw, update, finalize_seek) on their own instances; all interleavings of the scheduling points under preemption bound 2 (3 for pairs in the thorough tier) are executed and every thread's results must equal the results of the same sequence run alone (= the spec). On the C side every execution starts with g_cpu_features = UNDEFINED and the cache's load and store are scheduling points (hook H5), so detection itself races, and the final cache value is checked. The Rust side runs on a copy of the crate's source, regenerated from /repo on every build (runner/instrument.py), in which core::sync / std::sync atomics, Mutex, RwLock, Once, OnceLock, LazyLock operations written in the crate's own source are scheduling points too, statics behind them are put back to their initial bytes before every execution, and thread_local! values are per virtual thread (on the unchanged tree the crate performs no such operation: counter crate_sync_ops_as_scheduling_points = 0). The cpufeatures caches are over-approximated: every Platform::detect() call may answer any level up to the best one, all answer sequences with at most two deviations. Sampling, labelled so: 16 real threads released together as the first calls of fresh processes.",
     "note": "cpufeatures' own atomics are third-party code loom does not see. Interleavings finer than the scheduling points are not explored.",
 }
 
